@@ -29,7 +29,8 @@ ASSUMPTIONS = [
 ]
 
 LITS = ["plain", "", "it's", "a;b", "x -- y", "/* c */", "semi; -- both", "back\\slash", "ends\\", "two\\\\", "q''q", "$v", "$$", "a$b", "100%",
-        "%s", "héllo", "✓ ok", "日本", "🎉", "line\nbreak", "tab\there", "\"dq\"", "a'b;c--d/*e*/f", " ", "select 1; select 2", "NULL", "';"]
+        "%s", "héllo", "✓ ok", "日本", "🎉", "line\nbreak", "tab\there", "\"dq\"", "a'b;c--d/*e*/f", " ", "select 1; select 2", "NULL", "';",
+        "cr\rlf", "crlf\r\nend", "formfeed\x0cx", "vt\x0bx", "nel\u0085x", "ls\u2028x", "ps\u2029x", "fs\x1cx", "trailing cr\r", "\r\n"]
 
 
 def qlit(v: str) -> str:
